@@ -194,8 +194,9 @@ def part_proofs(ctx):
     except Unsupported as e:
         return {"ok": False, "gen": False, "err": str(e)}, None
     (COQ / "C17" / "GenFold.v").write_text(text)
-    b = ctx.coq_build(["C17/ArithSpec.v", "C17/ConvSpec.v", "C17/GenFold.v", "C17/FoldModel.v", "C17/FoldAgree.v", "C17/PropsFold.v",
-                        "C17/ConvModel.v", "C17/ConvAgree.v", "C17/PropsConv.v"])
+    # models first, so that they are available for the correspondence even when a proof breaks
+    b = ctx.coq_build(["C17/ArithSpec.v", "C17/ConvSpec.v", "C17/GenFold.v", "C17/FoldModel.v", "C17/ConvModel.v",
+                        "C17/FoldAgree.v", "C17/PropsFold.v", "C17/ConvAgree.v", "C17/PropsConv.v"])
     b["gen"] = True
     return b, info
 
@@ -417,9 +418,14 @@ def make_probes(ctx, types, npairs, only_ops=None, salt="probes"):
                     probes.append(P.Probe("abs", T, (a,), f"abs({a})", [tn], "abs(x0)", (a,), tn))
             if want("shift"):
                 ns = [-257, -256, -255, -8, -1, 0, 1, 8, 255, 256, 257, rnd.randrange(-256, 257)]
-                for a in rnd.sample(g, 3) + [lo, hi, -1 if T[0] else 1]:
-                    for n in rnd.sample(ns, 4):
-                        probes.append(P.Probe("shift", T, (a, n), f"shift({a}, {n})", [tn, "int256"], "shift(x0, x1)", (a, n), tn))
+                sh = [(a, n) for a in rnd.sample(g, 3) + [lo, hi, -1 if T[0] else 1] for n in rnd.sample(ns, 4)]
+                if T[0]:  # negative literal, right and left shifts (the only literals shift() accepts in an int256 context)
+                    sh += [(-8, -1), (-1, -255), (-1, -256), (lo, -1), (lo, -255), (-3, 1), (-1, 255), (lo + 1, -8)]
+                for a, n in sh:
+                    probes.append(P.Probe("shift", T, (a, n), f"shift({a}, {n})", [tn, "int256"], "shift(x0, x1)", (a, n), tn))
+                    if a < 0 and len(probes) % 3 == 0:  # the same through a named constant
+                        probes.append(P.Probe("shift", T, (a, n), "shift(A{i}, " + str(n) + ")", [tn, "int256"], "shift(x0, x1)", (a, n), tn,
+                                              pre=f"A{{i}}: constant({tn}) = {a}\n"))
             if not T[0]:
                 g3 = [0, 1, 2, 3, hi, hi - 1, 2**255, rnd.randrange(hi)]
                 if want("uint256_addmod") or want("uint256_mulmod"):
@@ -762,11 +768,15 @@ def run(ctx):
     failing = 0
     build, info = part_proofs(ctx)
     model_ok = build.get("gen") and (COQ / "C17" / "FoldModel.vo").exists() and (
-        build["ok"] or not any(x in build.get("file", "") for x in ("GenFold", "FoldModel", "ArithSpec")))
+        build["ok"] or not any(x in build.get("file", "") for x in ("GenFold", "FoldModel", "ArithSpec", "ConvSpec", "ConvModel")))
     tie_broken = []
     if model_ok:
-        n, tie_broken = part_model_tie(ctx)
-        total += n
+        try:
+            n, tie_broken = part_model_tie(ctx)
+            total += n
+        except RuntimeError as e:  # the model does not evaluate (e.g. a changed signature): treated as a broken tie
+            tie_broken = [{"form": "model-evaluation", "expr": "-", "real": "-", "model": str(e)[-400:]}]
+            model_ok = False
     # paired probes: the property's own observation (independent of the Coq model)
     probes = make_probes(ctx, types, npairs) + make_misc_probes(ctx, npairs) + make_constant_probes(ctx, types[:5] if ctx.tier == "quick" else types, npairs)
     n, nf, mism = run_probes(ctx, probes, cfgs, "q", with_model=model_ok)
